@@ -6,6 +6,7 @@ import AcraModel.Wire.PgExtLemmas
 import AcraModel.Wire.PgDescribeLemmas
 import AcraModel.Wire.MysqlColDefLemmas
 import AcraModel.Wire.MysqlExecuteLemmas
+import AcraModel.Typed.RowLemmas
 /-!
 # C12 — relayed messages stay byte-identical; rewritten ones stay well-formed
 
@@ -19,6 +20,7 @@ and are restated here under the property's names.
 * part 5 – MySQL column definitions (`decryptor/mysql/column_field.go`, `type_conversion.go`)
 * part 6 – MySQL COM_STMT_EXECUTE parameters (`decryptor/mysql/{packet.go,prepared_statements.go}`)
 * part 7 – PostgreSQL RowDescription / ParameterDescription (`decryptor/postgresql/pg_decryptor.go` over pgproto3)
+* part 8 – the decoder → encoder subscribers on columns without a setting (`decryptor/{postgresql,mysql}/data_encoder.go`)
 -/
 namespace AcraModel.Props.C12
 open AcraModel AcraModel.Wire.LenEnc Generated.LenEnc
@@ -212,14 +214,91 @@ theorem relay_identity_pg_parse (name query : Bytes) (oids : List Nat) (hn : NoZ
   ⟨marshal_newParsePacket name query oids hn hq hl ho, decodeParse_encodeParse name query oids hn hq hl ho⟩
 
 open AcraModel.Wire.Pg in
-/-- **Rewritten Parse stays well-formed.** `ReplaceQuery` on a Parse message yields exactly the
-well-framed Parse message with the new query text, the same statement name and the same parameter types. -/
-theorem rewrite_wellformed_pg_parse (name query q lb : Bytes) (oids : List Nat) (hn : NoZero name)
-    (hq : NoZero query) (hl : oids.length < 2^16) (ho : ∀ o ∈ oids, o < 2^32) (hq' : NoZero q)
-    (hsz : (encodeParse name q oids).length + 4 < 2^32) :
-    ∃ p, replaceParseQuery ⟨80, lb, encodeParse name query oids⟩ q = .ok p ∧
-      marshal p = encodeMsg 80 (encodeParse name q oids) :=
-  replaceParseQuery_marshal name query q lb oids hn hq hl ho hq' hsz
+/-- Facts from the regenerated sources the Parse/Bind models rely on: every big-endian integer read of
+`decryptor/postgresql/utils.go` with the Go conversions applied to it. The counts of the extended protocol (number of
+parameter type OIDs of Parse – `paramsNum.ToInt` –, number of format codes, parameters and result formats of Bind) and
+the parameter lengths are converted with `int(…)` only: they are read as UNSIGNED 16-bit (32-bit) values, never through
+`int16`/`int32`. The OID loop of `NewParsePacket` runs `numParams.ToInt()` times and takes 4 bytes each time. -/
+theorem fact_pg_int_reads :
+    Generated.Wire.pgIntReads = [("paramsNum.ToInt", 16, ["int"]), ("NewExecutePacket", 32, []),
+      ("readUint16Array", 16, ["int"]), ("readUint16Array", 16, []),
+      ("readParameterArray", 16, ["int"]), ("readParameterArray", 32, ["int"])] ∧
+    Generated.Wire.pgParamsNumToInt = ["int"] ∧ Generated.Wire.pgU16ArrayCountConv = ["int"] ∧
+    Generated.Wire.pgParamArrayCountConv = ["int"] ∧ Generated.Wire.pgParamArrayLenConv = ["int"] ∧
+    Generated.Wire.pgParseLoopBound = "numParams.ToInt()" ∧ Generated.Wire.pgParseOidWidth = 4 := by decide
+
+open AcraModel.Wire.Pg in
+/-- **The count of a Parse message is an unsigned 16-bit integer**: for every two bytes `b`, the number of parameter
+type OIDs `NewParsePacket` collects is the big-endian value of `b` (0 … 65535) – in particular 32768 … 65535 are counts,
+not negative numbers. -/
+theorem pg_parse_count_unsigned (b : Bytes) (h : b.length = 2) : paramsCount b = beVal b ∧ beVal b < 2^16 := by
+  have := beVal_lt b
+  rw [h] at this
+  exact ⟨paramsCount_eq b (by omega), by omega⟩
+
+open AcraModel.Wire.Pg in
+/-- **pg_parse_roundtrip.** `Marshal ∘ NewParsePacket = id` on every well-formed Parse body – statement name and query
+without zero bytes, ANY number 0 … 65535 of parameter type OIDs: the packet holds name and query with their terminators,
+the two count bytes as received, exactly as many 4-byte OIDs as the count declares, `Marshal` gives back the body byte for
+byte and `Length` its length; and the specification decoder recovers name, query and OIDs. -/
+theorem pg_parse_roundtrip (name query : Bytes) (oids : List Nat) (hn : NoZero name)
+    (hq : NoZero query) (hl : oids.length ≤ 65535) (ho : ∀ o ∈ oids, o < 2^32) :
+    (∃ p, newParsePacket (encodeParse name query oids) = .ok p ∧
+      p.name = name ++ [0] ∧ p.query = query ++ [0] ∧ p.paramsNum = beBytes 2 oids.length ∧
+      p.params = oids.map (beBytes 4) ∧ p.params.length = oids.length ∧ paramsCount p.paramsNum = oids.length ∧
+      p.marshal = encodeParse name query oids ∧ p.length = (encodeParse name query oids).length) ∧
+    decodeParse (encodeParse name query oids) = some (name, query, oids) := by
+  have hl' : oids.length < 2^16 := by omega
+  obtain ⟨p, h1, h2, h3⟩ := marshal_newParsePacket name query oids hn hq hl' ho
+  have h0 := newParsePacket_encodeParse name query oids hn hq hl' ho
+  rw [h0] at h1
+  cases h1
+  refine ⟨⟨_, h0, rfl, rfl, rfl, rfl, by simp, ?_, h2, h3⟩, decodeParse_encodeParse name query oids hn hq hl' ho⟩
+  rw [paramsCount_eq _ (by rw [beVal_beBytes2 _ hl']; omega), beVal_beBytes2 _ hl']
+
+open AcraModel.Wire.Pg in
+/-- **Rewritten Parse stays well-formed.** Whatever the proxy does to a well-formed Parse message with 0 … 65535
+parameter types – the query observers replace the query text (`q = some text`), `replaceOIDsInParsePackets` re-types the
+parameters selected by `sel` to `b` (bytea), both, or neither – the message it forwards is the well-framed Parse message
+with the same statement name, the new (or same) query text and the re-typed (or same) parameter types: the declared
+count equals the number of OIDs that follow and equals the count received, every parameter that is not selected keeps
+its OID, the packet length is the length of the body + 4, and the specification decoder reads all of this back. When
+nothing is replaced the packet is exactly the one received. -/
+theorem rewrite_wellformed_pg_parse (name query lb : Bytes) (oids : List Nat) (q : Option Bytes) (sel : Nat → Bool)
+    (b : Nat) (hn : NoZero name) (hq : NoZero query) (hl : oids.length ≤ 65535) (ho : ∀ o ∈ oids, o < 2^32)
+    (hb : b < 2^32) (hq' : ∀ x, q = some x → NoZero x)
+    (hsz : (encodeParse name (q.getD query) oids).length + 4 < 2^32) :
+    ∃ p, handleParse ⟨80, lb, encodeParse name query oids⟩ q sel b = .ok p ∧
+      ((q.isSome || (List.range oids.length).any sel) = true →
+        marshal p = encodeMsg 80 (encodeParse name (q.getD query) (setParseOids oids sel b))) ∧
+      ((q.isSome || (List.range oids.length).any sel) = false → p = ⟨80, lb, encodeParse name query oids⟩) ∧
+      decodeParse p.body = some (name, q.getD query, setParseOids oids sel b) ∧
+      (setParseOids oids sel b).length = oids.length ∧
+      (∀ i o, oids[i]? = some o → (setParseOids oids sel b)[i]? = some (if sel i then b else o)) := by
+  have hl' : oids.length < 2^16 := by omega
+  have hqq : NoZero (q.getD query) := by
+    cases q with
+    | none => exact hq
+    | some t => exact hq' t rfl
+  have hdec := decodeParse_encodeParse name (q.getD query) (setParseOids oids sel b) hn hqq
+    (by rw [setParseOids_length]; exact hl') (setParseOids_lt oids sel b ho hb)
+  refine ⟨_, handleParse_wellformed name query lb oids q sel b hn hq hl' ho hq' hsz, ?_, ?_, ?_,
+    setParseOids_length oids sel b, fun i o h => setParseOids_getElem? oids sel b i o h⟩
+  · intro hc
+    rw [if_pos hc]
+    exact marshal_encodeMsg 80 _ (by decide)
+  · intro hc
+    rw [hc]
+    rfl
+  · cases hc : (q.isSome || (List.range oids.length).any sel) with
+    | true => rw [if_pos rfl]; exact hdec
+    | false =>
+      rw [if_neg (by simp)]
+      have h1 : q = none := by cases q <;> simp_all
+      have h2 : (List.range oids.length).any sel = false := by cases q <;> simp_all
+      subst h1
+      rw [setParseOids_none oids sel b h2] at hdec ⊢
+      exact hdec
 
 open AcraModel.Wire.Pg in
 /-- **Relay identity, Bind.** A well-formed Bind body is parsed into portal, statement, parameter formats,
@@ -524,11 +603,10 @@ bitmap – so the NULL markers – and the new-params-bound flag are byte-identi
 parameter (same parameter count) and the encodings of the non-NULL values; the header gets the new payload length
 and keeps the sequence id.
 
-Missing for the full statement (`rewriteExecute` of a specification-encoded packet = the specification encoding of
-the transformed parameter list): the induction that assembles `rewrite_wellformed_mysql_execute_value` over the
-value loop with the NULL bitmap; it is covered by correspondence (`C12.my.execute`, `C12.my.execute.params`) and the
-direct oracle. The full statement is moreover FALSE for the unsigned flag of LONG/LONGLONG parameters – see
-`execute_sign_flag_counterexample` (known finding `my-execute-sign-flag`). -/
+The full statement (`rewriteExecute` of a specification-encoded packet = the specification encoding of the transformed
+parameter list) is `rewrite_wellformed_mysql_execute` below; it needs the hypothesis `SignFlagsCanonical` because it is
+FALSE for the unsigned flag of LONG/LONGLONG parameters – see `execute_sign_flag_counterexample` (known finding
+`my-execute-sign-flag`). This frame statement holds for ANY packet and value list `SetParameters` accepts. -/
 theorem rewrite_wellformed_mysql_execute_partial (fo : FloatOps) (p p' : Packet) (vs : List BoundValue) (hne : vs ≠ [])
     (h : setParameters fo p vs = .ok p') :
     ∃ types vals, p'.data = p.data.take (hdrLen + ((vs.length + 7) >>> 3) + 1) ++ types ++ vals ∧
@@ -536,6 +614,103 @@ theorem rewrite_wellformed_mysql_execute_partial (fo : FloatOps) (p p' : Packet)
       encodeVals fo vs = .ok vals ∧ p'.header = updatePacketSize p.header p'.data.length := by
   obtain ⟨types, vals, h1, h2, h3, h4, h5⟩ := setParameters_frame fo p p' vs hne h
   exact ⟨types, vals, h3, h4, setTypes_length _ _ _ _ h1, h2, h5⟩
+
+open AcraModel.Wire.My in
+/-- **execute_params_roundtrip (whole packet, read side).** On every COM_STMT_EXECUTE payload the specification encoder
+writes – 10-byte head, NULL bitmap, new-params-bound flag, `n ≥ 1` (type, unsigned-flag) pairs, then the wire values of
+the non-NULL parameters, each well-formed for its type (fixed-width numerics with their storage width, everything else a
+length-encoded string) – `GetBindParameters` returns exactly the specification's parameter list: parameter `i` is NULL iff
+bit `i` of the bitmap is set, every other parameter is read at the right offset with exactly its wire length, integers as
+their signed decimal text, strings as their bytes. (The value loop is assembled by induction over the parameter list with
+the bitmap; this was covered by correspondence only before.) -/
+theorem execute_params_roundtrip (fo : FloatOps) (head : Bytes) (types : List (Nat × Nat)) (vals : List (Option Bytes))
+    (hh : head.length = 10) (hl : types.length = vals.length) (hn : 0 < vals.length)
+    (hty : ∀ tf ∈ types, tf.1 < 256)
+    (hw : ∀ (j t f : Nat) (v : Bytes), types[j]? = some (t, f) → vals[j]? = some (some v) → WireOk t v) :
+    getBindParameters fo (encodeExecute head types vals) vals.length = .ok (some (boundAll fo types vals)) ∧
+    (boundAll fo types vals).length = vals.length ∧
+    (∀ (j t f : Nat), types[j]? = some (t, f) → vals[j]? = some none → (boundAll fo types vals)[j]? = some ⟨t, none⟩) ∧
+    (∀ (j t f : Nat) (v : Bytes), types[j]? = some (t, f) → vals[j]? = some (some v) →
+      (boundAll fo types vals)[j]? = some (boundOf fo t (some v))) := by
+  refine ⟨getBindParameters_encodeExecute fo head types vals hh hl hn hty hw, ?_, ?_, ?_⟩
+  · clear hw hty hn hh
+    induction vals generalizing types with
+    | nil => cases types <;> rfl
+    | cons v vs ih =>
+      match types, hl with
+      | tf :: ts, hl => simp [boundAll, ih ts (by simpa using hl)]
+  · clear hw hty hn hh
+    induction vals generalizing types with
+    | nil => intro j t f _ h; simp at h
+    | cons v vs ih =>
+      match types, hl with
+      | tf :: ts, hl =>
+        intro j t f h1 h2
+        cases j with
+        | zero =>
+          simp only [List.getElem?_cons_zero, Option.some.injEq] at h1 h2
+          subst h1; subst h2
+          rfl
+        | succ j => simpa [boundAll] using ih ts (by simpa using hl) j t f (by simpa using h1) (by simpa using h2)
+  · clear hw hty hn hh
+    induction vals generalizing types with
+    | nil => intro j t f v _ h; simp at h
+    | cons v vs ih =>
+      match types, hl with
+      | tf :: ts, hl =>
+        intro j t f x h1 h2
+        cases j with
+        | zero =>
+          simp only [List.getElem?_cons_zero, Option.some.injEq] at h1 h2
+          subst h1; subst h2
+          rfl
+        | succ j => simpa [boundAll] using ih ts (by simpa using hl) j t f x (by simpa using h1) (by simpa using h2)
+
+open AcraModel.Wire.My in
+/-- **Rewritten COM_STMT_EXECUTE stays well-formed – whole packet.** For every COM_STMT_EXECUTE payload the specification
+encoder writes (`encodeExecute head types vals`: `n ≥ 1` parameters, every wire value well-formed for its type) and every
+observer that maps the TEXT value of parameter `i` to `f i text`, `GetBindParameters → OnBind → SetParameters` yields the
+packet whose payload is EXACTLY the specification encoding of the rewritten parameter list, with the new payload length
+in the header and the sequence id kept:
+* the 10-byte head, the parameter count, the NULL bitmap and the new-params-bound flag are the ones received (NULL
+  parameters stay NULL, no other parameter becomes NULL);
+* a parameter the observer does not change keeps its type, its unsigned flag and its value bytes – integers and floats
+  bit-identical after the round trip through decimal text;
+* a parameter the observer changes travels as a BLOB (type 252, flag kept) holding the length-encoded new text.
+Hypotheses beyond well-formedness: `FloatLaw` (strconv's shortest-text round trip for the FLOAT/DOUBLE values present:
+all finite values and infinities) and `SignFlagsCanonical` – the complement of the input class of the known finding
+`my-execute-sign-flag`, for which the statement is false (`execute_sign_flag_counterexample`). -/
+theorem rewrite_wellformed_mysql_execute (fo : FloatOps) (f : Nat → Bytes → Bytes) (g : Nat → Bytes → Out Bytes)
+    (hg : ∀ i d, g i d = .ok (f i d)) (h head : Bytes) (types : List (Nat × Nat)) (vals : List (Option Bytes))
+    (hh : head.length = 10) (hl : types.length = vals.length) (hn : 0 < vals.length)
+    (hty : ∀ tf ∈ types, tf.1 < 256 ∧ tf.2 < 256)
+    (hw : ∀ (j t fl : Nat) (v : Bytes), types[j]? = some (t, fl) → vals[j]? = some (some v) → WireOk t v)
+    (hlaw : FloatLaw fo types vals) (hsf : SignFlagsCanonical types vals) :
+    ∃ p', rewriteExecute fo g ⟨h, encodeExecute head types vals⟩ vals.length = .ok (some p') ∧
+      p'.data = encodeExecute head (outTypes fo f 0 types vals) (outVals fo f 0 types vals) ∧
+      p'.header = updatePacketSize h p'.data.length ∧
+      (outTypes fo f 0 types vals).length = vals.length ∧ (outVals fo f 0 types vals).length = vals.length ∧
+      (∀ j : Nat, (outVals fo f 0 types vals)[j]? = some none ↔ vals[j]? = some none) ∧
+      (∀ (j t fl : Nat) (v : Option Bytes), types[j]? = some (t, fl) → vals[j]? = some v →
+        (changedAt fo f j t v = false →
+          (outTypes fo f 0 types vals)[j]? = some (t, fl) ∧ (outVals fo f 0 types vals)[j]? = some v) ∧
+        (changedAt fo f j t v = true →
+          (outTypes fo f 0 types vals)[j]? = some (changedType, fl) ∧
+          (outVals fo f 0 types vals)[j]? = some ((boundOf fo t v).data.map (f j)))) := by
+  refine ⟨_, rewriteExecute_encodeExecute fo f g hg h head types vals hh hl hn hty hw hlaw hsf, rfl, rfl,
+    outTypes_length fo f 0 types vals hl, outVals_length fo f 0 types vals hl,
+    fun j => outVals_none_iff fo f 0 types vals hl j, ?_⟩
+  intro j t fl v h1 h2
+  have ht := outTypes_getElem? fo f 0 types vals j t fl v h1 h2
+  have hv := outVals_getElem? fo f 0 types vals j t fl v h1 h2
+  rw [Nat.zero_add] at ht hv
+  constructor
+  · intro hc
+    rw [hc] at ht hv
+    exact ⟨ht, hv⟩
+  · intro hc
+    rw [hc] at ht hv
+    exact ⟨ht, hv⟩
 
 open AcraModel.Wire.My in
 /-- **Counterexample (known finding `my-execute-sign-flag`).** "Fields that were not transformed keep their exact
@@ -639,6 +814,35 @@ theorem describe_relay_identity (p : Packet) (its : List (Option Nat)) :
   · intro fs h hn; simp [handleRowDescription, h, hn]
   · intro fs h hn; simp [handleRowDescription, h, hn]
 
+/-! ## part 8 — columns without any setting through the decoder → encoder subscribers -/
+
+/-- **Relay identity of the PostgreSQL subscriber chain – partial.** A column value for which no setting is matched and
+that nobody decrypts leaves `PgSQLDataDecoderProcessor → PgSQLDataEncoderProcessor` exactly as it arrived – in either
+result format, whether or not it looks like bytea hex / escape text (the decoder's decoded form is dropped and the saved
+original is given back) – EXCEPT a text that starts with `\x` and is not valid hex, which makes the decoder fail and
+the row is refused (known finding `pg-chain-hex-lookalike`; the second disjunct is exactly that input class). -/
+theorem relay_identity_pg_chain_partial (binary : Bool) (d : Bytes) :
+    Typed.pgChainNoSetting binary d = .ok d ∨
+      (Wire.Bytea.decodeEscaped d = .error .hex ∧ Typed.pgChainNoSetting binary d = .err) :=
+  Typed.pgChainNoSetting_identity binary d
+
+/-- **Counterexample (known finding `pg-chain-hex-lookalike`).** The text `\xZZ` of a column without any setting is
+not relayed: the row is refused. -/
+theorem relay_identity_pg_chain_counterexample : Typed.pgChainNoSetting false [92, 120, 90, 90] = .err := by decide
+
+/-- **Relay identity of the MySQL subscriber chain.** A column value without a setting leaves
+`DataDecoderProcessor → DataEncoderProcessor` in the wire form it arrived in: text protocol – the length-encoded value,
+for every column type; binary protocol – the length-encoded value for string/blob-like types, and for the fixed-width
+integer types (TINY, SHORT, YEAR, INT24, LONG, LONGLONG) the very `k` bytes received (binary → decimal text → binary is
+the identity on every `k`-byte pattern). FLOAT / DOUBLE columns are outside the model (strconv float formatting;
+covered by the direct oracle `my-chain-identity-bin`). -/
+theorem relay_identity_my_chain (t : Nat) (v : Bytes) :
+    Typed.myChainNoSetting false t v = .ok (Typed.lenenc v) ∧
+    (Typed.blobLike t → Typed.myChainNoSetting true t v = .ok (Typed.lenenc v)) ∧
+    (∀ k, Typed.intWidth t = some k → v.length = k → Typed.myChainNoSetting true t v = .ok v) :=
+  ⟨Typed.myChainNoSetting_text t v, fun hb => Typed.myChainNoSetting_blob t v hb,
+   fun k hk hv => Typed.myChainNoSetting_int t k v hk hv⟩
+
 /-! ## no panics (the modelled readers and rewriters, whatever the input; collected into C14 by the lead) -/
 
 open AcraModel.Wire.Pg in
@@ -660,10 +864,11 @@ open AcraModel.Wire.Pg in
 /-- **Parse and Bind handling never panics**, whatever the packet body (truncated parameter counts, parameter
 lists shorter than announced, missing terminators …) and the (non-panicking) observers. -/
 theorem pg_parse_bind_no_panic (g : Nat → Bool → Option Bytes → Out (Option Bytes)) (hg : ∀ i b v, g i b v ≠ .panic)
-    (data q : Bytes) (p : Packet) :
-    newParsePacket data ≠ .panic ∧ replaceParseQuery p q ≠ .panic ∧
+    (data q : Bytes) (p : Packet) (oq : Option Bytes) (sel : Nat → Bool) (b : Nat) :
+    newParsePacket data ≠ .panic ∧ replaceParseQuery p q ≠ .panic ∧ handleParse p oq sel b ≠ .panic ∧
     newBindPacket data ≠ .panic ∧ rewriteBind g p ≠ .panic :=
-  ⟨newParsePacket_no_panic data, replaceParseQuery_no_panic p q, newBindPacket_no_panic data, rewriteBind_no_panic g hg p⟩
+  ⟨newParsePacket_no_panic data, replaceParseQuery_no_panic p q, handleParse_no_panic p oq sel b,
+   newBindPacket_no_panic data, rewriteBind_no_panic g hg p⟩
 
 open AcraModel.Wire.My in
 /-- **MySQL framing never panics** (`readPacket` over any stream, `replaceQuery` on any payload), and
@@ -713,6 +918,13 @@ transformation grows column 0 and empties column 2 -/
 example : ∃ p, rewriteRow (fun i d => .ok (if i = 0 then d ++ [9, 9] else [])) [] ⟨68, [0, 0, 0, 21], encodeRow [some [1], none, some []]⟩ = .ok p
     ∧ decodeRow p.body = some [some [1, 9, 9], none, some []] := ⟨_, by rfl, by rfl⟩
 
+open AcraModel.Wire.Pg in
+/-- non-vacuity of `pg_parse_roundtrip` / `rewrite_wellformed_pg_parse`: the two count bytes `80 00` are the count 32768, and
+a Parse message `("s", "select $1,$2", [23, 25])` whose query is replaced and whose first parameter is re-typed to bytea (17) -/
+example : paramsCount [0x80, 0x00] = 32768 ∧
+    (∃ p, handleParse ⟨80, [0, 0, 0, 0], encodeParse [115] [115, 101, 108] [23, 25]⟩ (some [113]) (fun i => i == 0) 17 = .ok p ∧
+      decodeParse p.body = some ([115], [113], [17, 25]) ∧ p.lenBuf = [0, 0, 0, 18]) := ⟨by decide, _, by rfl, by rfl, by rfl⟩
+
 open AcraModel.Wire.My in
 /-- non-vacuity of the MySQL row theorems on a row with a NULL, an empty string and a value -/
 example : decodeTextRow [none, some [], some [65]].length (encodeTextRow [none, some [], some [65]]) = some [none, some [], some [65]] :=
@@ -732,6 +944,34 @@ example : ∃ s : ColSpec, s.Ok ∧ s.ext = some [0, 4, 106, 115, 111, 110] ∧ 
        rcases hb with rfl | rfl | rfl | rfl | hb <;> first | decide | exact absurd hb (by simp),
     by intro e he; cases he; decide, by decide, by decide, by decide, by decide, by decide,
     by intro d hd; cases hd; decide⟩, rfl, rfl, by decide⟩
+
+open AcraModel.Wire.My in
+/-- non-vacuity of `execute_params_roundtrip`: three parameters – the string "A", NULL, the blob "BC" -/
+example : getBindParameters ⟨fun _ b => b, fun _ b => some b⟩
+      ([0x17, 1, 0, 0, 0, 0, 1, 0, 0, 0] ++ [2] ++ [1] ++ [0xfd, 0, 6, 0, 0xfc, 0] ++ [1, 65, 2, 66, 67]) 3
+    = .ok (some [⟨0xfd, some [65]⟩, ⟨6, none⟩, ⟨0xfc, some [66, 67]⟩]) ∧
+    encodeExecute [0x17, 1, 0, 0, 0, 0, 1, 0, 0, 0] [(0xfd, 0), (6, 0), (0xfc, 0)] [some [65], none, some [66, 67]]
+      = [0x17, 1, 0, 0, 0, 0, 1, 0, 0, 0] ++ [2] ++ [1] ++ [0xfd, 0, 6, 0, 0xfc, 0] ++ [1, 65, 2, 66, 67] := by
+  constructor <;> rfl
+
+open AcraModel.Wire.My in
+/-- non-vacuity of `rewrite_wellformed_mysql_execute`: the string "A" is changed to "Z", the NULL and the blob "BC" are
+kept – the first parameter becomes a BLOB (252), everything else is byte-identical; the hypotheses hold for this
+execute (no float, no LONG/LONGLONG parameter) -/
+example : rewriteExecute ⟨fun _ b => b, fun _ b => some b⟩ (fun i d => .ok (if i = 0 then [90] else d))
+      ⟨[23, 0, 0, 1], encodeExecute [0x17, 1, 0, 0, 0, 0, 1, 0, 0, 0] [(0xfd, 0), (6, 0), (0xfc, 0)] [some [65], none, some [66, 67]]⟩ 3
+    = .ok (some ⟨[23, 0, 0, 1], encodeExecute [0x17, 1, 0, 0, 0, 0, 1, 0, 0, 0] [(0xfc, 0), (6, 0), (0xfc, 0)] [some [90], none, some [66, 67]]⟩) ∧
+    FloatLaw ⟨fun _ b => b, fun _ b => some b⟩ [(0xfd, 0), (6, 0), (0xfc, 0)] [some [65], none, some [66, 67]] ∧
+    SignFlagsCanonical [(0xfd, 0), (6, 0), (0xfc, 0)] [some [65], none, some [66, 67]] := by
+  refine ⟨by rfl, fun j t fl w v _ _ _ => rfl, ?_⟩
+  intro j t fl sb v h1 _ h3 _
+  exfalso
+  have : j = 0 ∨ j = 1 ∨ j = 2 ∨ 3 ≤ j := by omega
+  rcases this with rfl | rfl | rfl | hj
+  · simp at h1; obtain ⟨rfl, _⟩ := h1; revert h3; decide
+  · simp at h1; obtain ⟨rfl, _⟩ := h1; revert h3; decide
+  · simp at h1; obtain ⟨rfl, _⟩ := h1; revert h3; decide
+  · rw [List.getElem?_eq_none (by simpa using hj)] at h1; cases h1
 
 open AcraModel.Wire.Pg in
 /-- non-vacuity of `rowdescription_rewrite_frame`: two columns, the second re-typed to int4 (OID 23) -/
